@@ -41,8 +41,12 @@ def gen_cases(tier, seed):
                 cases.append({"kind": "zoo", "cfg": cfg, "policy": pol, "seed": env.subseed(seed, "c02", fam, ci, pol),
                               "world": world, "batch": 5 if tier == "quick" else 8,
                               "cost": 8 if "umnn" in fam else (3 if len(cfg.get("shape", [1])) == 3 else 1)})
+                base_case = cases[-1]
                 if cfg.get("cache") and pol not in ("zero", "extreme") and fam != "conv1x1x":
-                    cases.append(dict(cases[-1], order="inverse_first"))
+                    cases.append(dict(base_case, order="inverse_first"))
+                if pol == "randn1" and world == "f64" and (ci < 2 or tier == "thorough") and "umnn" not in fam:
+                    # the same object after its values were replaced (built and called with other values, then loaded)
+                    cases.append(dict(base_case, pre="revalued"))
     nb = 4 if tier == "quick" else 120
     for fam in ("linear", "quadratic", "cubic", "rq"):
         for bi, bx in enumerate(splineref.BOXES):
@@ -106,6 +110,13 @@ def run_case(case):
         r.viol("construct", "%s constructor raises" % fam, exc=repr(e)[:300], cfg=cfg)
         return r.done()
     B = case["batch"]
+    if case.get("pre") == "revalued":
+        try:
+            model = zoo.revalued(cfg, model, me, case["seed"], B)
+            r.count("revalued_objects")
+        except Exception as e:
+            r.inconc("revalued pre-history: harness failure %r" % (e,))
+            return r.done()
     cubic_nu = ("spline_cubic" in me["tags"]) and pol != "zero"
     x = zoo.sample_inputs(me, B, case["seed"] + 1, structured="many")
     ctx = zoo.sample_context(me, B, case["seed"] + 2)
